@@ -452,7 +452,7 @@ def fmt_value(it, kind, val, f):
         if kind == 'lowerhex':
             pad_write(f, [(ord(c), 1) for c in '%x' % (v & ((1 << 64) - 1) if v < 0 else v)]); return
     if is_sym(v) and kind == 'display_char':
-        f.out.append((v, None)); raise Unsupported('display of symbolic char needs width')
+        f.out.append((v, len_utf8(it, v))); return
     if isinstance(v, Agg):
         name = it.prog.resolve_crate('<%s as %s>::fmt' % (v.ty, KIND_TRAIT[kind]))
         if name:
@@ -609,7 +609,7 @@ def install(prog):
     @M(r'<Option<.*> as FromResidual<Option<Infallible>>>::from_residual')
     def _(it, m, a): return mk_none()
 
-    @M(r'<(\w+) as Into<\1>>::into|<(\w+) as From<\2>>::from')
+    @M(r'<([^<> ]+) as Into<\1>>::into|<([^<> ]+) as From<\2>>::from')
     def _(it, m, a): return a[0]
 
     # ---- char ------------------------------------------------------------------------------
@@ -1085,6 +1085,18 @@ def install(prog):
     @M(r'Box::<.*>::new')
     def _(it, m, a): return mk_box(a[0])
 
+    @M(r'Box::<\[.*; \d+\]>::new_uninit')
+    def _(it, m, a):
+        # vec![a, b] lowering: Box<MaybeUninit<[T; N]>> written through .1 (ManuallyDrop) .0 (MaybeDangling) .0
+        return mk_box(Agg('MaybeUninit', None, [UNIT, Agg('ManuallyDrop', None, [Agg('MaybeDangling', None, [None])])]))
+
+    @M(r'std::boxed::box_assume_init_into_vec_unsafe::<.*>|alloc::boxed::box_assume_init_into_vec_unsafe::<.*>')
+    def _(it, m, a):
+        mu = unbox(a[0])
+        arr = mu.f[1].f[0].f[0]
+        if arr is None: raise Unsupported('vec! storage not initialised')
+        return list(arr)
+
     @M(r'Rc::<.*>::new')
     def _(it, m, a): return Ref(Cell(a[0]))
 
@@ -1288,6 +1300,310 @@ def install(prog):
         tup = a[1]
         return it.call_closure(clo, list(tup.f) if isinstance(tup, Agg) else [tup])
 
+
+    # ---- more Option / Result --------------------------------------------------------------
+    @M(r'Option::<.*>::map_or_else::<.*>')
+    def _(it, m, a):
+        if a[0].var == 0: return it.call_closure(a[1], [])
+        return it.call_closure(a[2], [a[0].f[0]])
+
+    @M(r'Option::<.*>::(is_some_and|is_none_or)::<.*>')
+    def _(it, m, a):
+        if a[0].var == 0: return m.group(1) == 'is_none_or'
+        return it.call_closure(a[1], [a[0].f[0]])
+
+    @M(r'Option::<.*>::filter::<.*>')
+    def _(it, m, a):
+        if a[0].var == 0: return a[0]
+        ok = it.call_closure(a[1], [Ref(Cell(a[0].f[0]))])
+        return a[0] if it.branch(ok) else mk_none()
+
+    @M(r'Option::<.*>::or')
+    def _(it, m, a): return a[0] if a[0].var == 1 else a[1]
+
+    @M(r'Option::<.*>::or_else::<.*>')
+    def _(it, m, a): return a[0] if a[0].var == 1 else it.call_closure(a[1], [])
+
+    @M(r'Option::<.*>::and::<.*>')
+    def _(it, m, a): return a[1] if a[0].var == 1 else mk_none()
+
+    @M(r'Option::<.*>::zip::<.*>')
+    def _(it, m, a):
+        if a[0].var == 1 and a[1].var == 1: return mk_some(Agg('tuple', None, [a[0].f[0], a[1].f[0]]))
+        return mk_none()
+
+    @M(r'Option::<.*>::(replace|insert)')
+    def _(it, m, a):
+        old = a[0].get(); a[0].set(mk_some(a[1]))
+        return old if m.group(1) == 'replace' else a[0].sub(0)
+
+    @M(r'Option::<.*>::as_deref')
+    def _(it, m, a):
+        o = deref(a[0])
+        if o.var == 0: return mk_none()
+        v = o.f[0]
+        if isinstance(v, StrObj): return mk_some(StrRef(v, 0, len(v.chars)))
+        return mk_some(v)
+
+    @M(r'Result::<.*>::unwrap_or_else::<.*>')
+    def _(it, m, a): return a[0].f[0] if a[0].var == 0 else it.call_closure(a[1], [a[0].f[0]])
+
+    @M(r'Result::<.*>::unwrap_or_default')
+    def _(it, m, a):
+        if a[0].var == 0: return a[0].f[0]
+        raise Unsupported('Result::unwrap_or_default on Err')
+
+    @M(r'Result::<.*>::map_or::<.*>')
+    def _(it, m, a): return a[1] if a[0].var == 1 else it.call_closure(a[2], [a[0].f[0]])
+
+    @M(r'Result::<.*>::(is_ok_and|is_err_and)::<.*>')
+    def _(it, m, a):
+        want = 0 if m.group(1) == 'is_ok_and' else 1
+        if a[0].var != want: return False
+        return it.call_closure(a[1], [a[0].f[0]])
+
+    @M(r'Result::<.*>::or_else::<.*>')
+    def _(it, m, a): return a[0] if a[0].var == 0 else it.call_closure(a[1], [a[0].f[0]])
+
+    @M(r'Result::<.*>::err')
+    def _(it, m, a): return mk_some(a[0].f[0]) if a[0].var == 1 else mk_none()
+
+    @M(r'Result::<.*>::(unwrap_err|expect_err)')
+    def _(it, m, a):
+        if a[0].var != 1: raise Panic('unwrap_err on Ok', 'unwrap')
+        return a[0].f[0]
+
+    @M(r'Result::<.*>::as_ref')
+    def _(it, m, a):
+        o = a[0].get()
+        return Agg('Result', o.var, [a[0].sub(0)])
+
+    # ---- more integers -----------------------------------------------------------------------
+    @M(r'core::num::<impl (\w+)>::saturating_add')
+    def _(it, m, a):
+        ty = m.group(1); w, sg = INT_TYPES[ty]
+        r = it.overflow_op('Add', a[0], a[1], ty)
+        if not it.branch(r.f[1]): return r.f[0]
+        if not sg: return (1 << w) - 1
+        neg = it.branch(it.binop('Lt', a[1], 0, ty))
+        return -(1 << (w - 1)) if neg else (1 << (w - 1)) - 1
+
+    @M(r'core::num::<impl (\w+)>::saturating_mul')
+    def _(it, m, a):
+        ty = m.group(1); w, sg = INT_TYPES[ty]
+        r = it.overflow_op('Mul', a[0], a[1], ty)
+        if not it.branch(r.f[1]): return r.f[0]
+        if not sg: return (1 << w) - 1
+        raise Unsupported('signed saturating_mul overflow')
+
+    @M(r'core::num::<impl (\w+)>::checked_(div|rem)')
+    def _(it, m, a):
+        ty = m.group(1); w, sg = INT_TYPES[ty]
+        if it.branch(it.binop('Eq', a[1], 0, ty)): return mk_none()
+        if sg:
+            mn = -(1 << (w - 1))
+            if it.branch(it.binop('Eq', a[0], mn, ty)) and it.branch(it.binop('Eq', a[1], -1, ty)): return mk_none()
+        return mk_some(it.binop('Div' if m.group(2) == 'div' else 'Rem', a[0], a[1], ty))
+
+    @M(r'core::num::<impl (\w+)>::checked_neg')
+    def _(it, m, a):
+        ty = m.group(1); w, sg = INT_TYPES[ty]
+        if sg:
+            if it.branch(it.binop('Eq', a[0], -(1 << (w - 1)), ty)): return mk_none()
+            return mk_some(it.binop('Sub', 0, a[0], ty))
+        return mk_some(0) if it.branch(it.binop('Eq', a[0], 0, ty)) else mk_none()
+
+    @M(r'core::num::<impl (\w+)>::wrapping_neg')
+    def _(it, m, a): return it.binop('Sub', 0, a[0], m.group(1))
+
+    @M(r'core::num::<impl (\w+)>::(abs|wrapping_abs)')
+    def _(it, m, a):
+        ty = m.group(1); w, sg = INT_TYPES[ty]; x = a[0]
+        if not is_sym(x):
+            if x == -(1 << (w - 1)):
+                if m.group(2) == 'abs' and it.overflow_checks: raise Panic('attempt to negate with overflow', 'overflow')
+                return x
+            return abs(x)
+        mn = -(1 << (w - 1))
+        if m.group(2) == 'abs' and it.overflow_checks and it.branch(x == mn): raise Panic('attempt to negate with overflow', 'overflow')
+        return z3.If(x < 0, -x, x)
+
+    @M(r'core::num::<impl (\w+)>::abs_diff')
+    def _(it, m, a):
+        ty = m.group(1)
+        if it.branch(it.binop('Lt', a[0], a[1], ty)): return it.binop('Sub', a[1], a[0], ty)
+        return it.binop('Sub', a[0], a[1], ty)
+
+    @M(r'core::num::<impl (\w+)>::(checked_pow|pow|wrapping_pow)')
+    def _(it, m, a):
+        ty = m.group(1); kind = m.group(2); e = a[1]
+        if is_sym(e): e = it.concretize(e)
+        if e > 4096: raise Unsupported('pow with exponent %d' % e)
+        acc = 1
+        for _ in range(e):
+            if kind == 'wrapping_pow':
+                acc = it.binop('Mul', acc, a[0], ty)
+                continue
+            r = it.overflow_op('Mul', acc, a[0], ty)
+            if it.branch(r.f[1]):
+                if kind == 'checked_pow': return mk_none()
+                if it.overflow_checks: raise Panic('attempt to multiply with overflow', 'overflow')
+            acc = r.f[0]
+        return mk_some(acc) if kind == 'checked_pow' else acc
+
+    @M(r'core::num::<impl (\w+)>::(is_positive|is_negative|signum)')
+    def _(it, m, a):
+        ty = m.group(1)
+        if m.group(2) == 'is_positive': return it.binop('Gt', a[0], 0, ty)
+        if m.group(2) == 'is_negative': return it.binop('Lt', a[0], 0, ty)
+        if it.branch(it.binop('Gt', a[0], 0, ty)): return 1
+        return 0 if it.branch(it.binop('Eq', a[0], 0, ty)) else -1
+
+    @M(r'<(\w+) as Ord>::clamp|core::cmp::Ord::clamp')
+    def _(it, m, a):
+        ty = m.group(1) or 'i64'
+        if it.branch(it.binop('Lt', a[0], a[1], ty)): return a[1]
+        if it.branch(it.binop('Gt', a[0], a[2], ty)): return a[2]
+        return a[0]
+
+    # ---- more str ------------------------------------------------------------------------------
+    @M(r'core::str::<impl str>::get(_mut)?::<(?:std::ops::)?(RangeTo|RangeFrom|Range|RangeFull|RangeInclusive)(?:<usize>)?>')
+    def _(it, m, a):
+        sr = as_str(it, a[0]); r = a[1]; k = m.group(2)
+        if k == 'RangeTo': lo, hi = None, r.f[0]
+        elif k == 'RangeFrom': lo, hi = r.f[0], None
+        elif k == 'Range': lo, hi = r.f[0], r.f[1]
+        elif k == 'RangeFull': return mk_some(sr)
+        else:
+            lo, hi = r.f[0], r.f[1]
+            if is_sym(hi): hi = it.concretize(hi)
+            if hi == (1 << 64) - 1: return mk_none()
+            hi += 1
+        try:
+            return mk_some(str_index(it, sr, lo, hi))
+        except Panic:
+            return mk_none()
+
+    @M(r'core::str::<impl str>::is_char_boundary')
+    def _(it, m, a):
+        sr = as_str(it, a[0]); i = a[1]
+        if is_sym(i): i = it.concretize(i)
+        o = 0; offs = {0}
+        for _, w in sr.chars():
+            o += w; offs.add(o)
+        return i in offs
+
+    @M(r'core::str::<impl str>::contains::<char>')
+    def _(it, m, a):
+        for c, _ in as_str(it, a[0]).chars():
+            if it.branch(it.binop('Eq', c, a[1], 'char')): return True
+        return False
+
+    @M(r'core::str::<impl str>::contains::<&str>|core::str::<impl str>::contains::<&String>')
+    def _(it, m, a):
+        hs, nd = as_str(it, a[0]).chars(), as_str(it, a[1]).chars()
+        for i in range(len(hs) - len(nd) + 1):
+            if chars_equal(it, hs[i:i + len(nd)], nd): return True
+        return False
+
+    @M(r'core::str::<impl str>::contains::<.*closure.*>|core::str::<impl str>::contains::<fn.*>')
+    def _(it, m, a):
+        for c, _ in as_str(it, a[0]).chars():
+            if it.branch(it.call_closure(a[1], [c])): return True
+        return False
+
+    @M(r'core::str::<impl str>::(find|rfind)::<(.*)>')
+    def _(it, m, a):
+        sr = as_str(it, a[0]); cs = sr.chars()
+        offs = [0]
+        for _, w in cs: offs.append(offs[-1] + w)
+        idxs = range(len(cs)) if m.group(1) == 'find' else range(len(cs) - 1, -1, -1)
+        pat = m.group(2)
+        if pat in ('&str', '&String'):
+            nd = as_str(it, a[1]).chars()
+            rng_ = range(len(cs) - len(nd) + 1) if m.group(1) == 'find' else range(len(cs) - len(nd), -1, -1)
+            for i in rng_:
+                if chars_equal(it, cs[i:i + len(nd)], nd): return mk_some(offs[i])
+            return mk_none()
+        for i in idxs:
+            c = cs[i][0]
+            hit = it.binop('Eq', c, a[1], 'char') if pat == 'char' else it.call_closure(a[1], [c])
+            if it.branch(hit): return mk_some(offs[i])
+        return mk_none()
+
+    @M(r'core::str::<impl str>::ends_with::<char>')
+    def _(it, m, a):
+        cs = as_str(it, a[0]).chars()
+        if not cs: return False
+        return it.branch(it.binop('Eq', cs[-1][0], a[1], 'char'))
+
+    @M(r'core::str::<impl str>::ends_with::<&str>')
+    def _(it, m, a):
+        sr, p = as_str(it, a[0]).chars(), as_str(it, a[1]).chars()
+        if len(p) > len(sr): return False
+        return chars_equal(it, sr[len(sr) - len(p):], p)
+
+    @M(r'core::str::<impl str>::(strip_prefix|strip_suffix)::<(char|&str)>')
+    def _(it, m, a):
+        sr = as_str(it, a[0]); cs = sr.chars()
+        p = [(a[1], 1)] if m.group(2) == 'char' else as_str(it, a[1]).chars()
+        if len(p) > len(cs): return mk_none()
+        if m.group(1) == 'strip_prefix':
+            if chars_equal(it, cs[:len(p)], p): return mk_some(StrRef(sr.obj, sr.a + len(p), sr.b))
+        else:
+            if chars_equal(it, cs[len(cs) - len(p):], p): return mk_some(StrRef(sr.obj, sr.a, sr.b - len(p)))
+        return mk_none()
+
+    @M(r'core::str::<impl str>::split_at')
+    def _(it, m, a):
+        sr = as_str(it, a[0])
+        return Agg('tuple', None, [str_index(it, sr, None, a[1]), str_index(it, sr, a[1], None)])
+
+    @M(r'core::str::<impl str>::(trim|trim_start|trim_end)')
+    def _(it, m, a):
+        sr = as_str(it, a[0]); lo, hi = sr.a, sr.b
+        if m.group(1) in ('trim', 'trim_start'):
+            while lo < hi and it.branch(char_pred(it, 'is_whitespace', sr.obj.chars[lo][0])): lo += 1
+        if m.group(1) in ('trim', 'trim_end'):
+            while hi > lo and it.branch(char_pred(it, 'is_whitespace', sr.obj.chars[hi - 1][0])): hi -= 1
+        return StrRef(sr.obj, lo, hi)
+
+    @M(r'core::str::<impl str>::(as_bytes|bytes)')
+    def _(it, m, a):
+        sr = as_str(it, a[0]); out = []
+        for c, w in sr.chars():
+            if w != 1: raise Unsupported('as_bytes of non-ASCII text')
+            out.append(it.cast_char_u8(c) if hasattr(it, 'cast_char_u8') else (z3.Extract(7, 0, c) if is_sym(c) else c))
+        sl = SliceRef(Ref(Cell(out)), 0, len(out))
+        return sl if m.group(1) == 'as_bytes' else SliceIter(sl)
+
+    @M(r'core::str::<impl str>::eq_ignore_ascii_case')
+    def _(it, m, a):
+        x, y = as_str(it, a[0]).chars(), as_str(it, a[1]).chars()
+        if len(x) != len(y): return False
+        for (p, _), (q, _) in zip(x, y):
+            if not it.branch(it.binop('Eq', ascii_lower(it, p), ascii_lower(it, q), 'char')): return False
+        return True
+
+    @M(r'(?:std|core)::char::methods::<impl char>::(to_ascii_lowercase|to_ascii_uppercase)')
+    def _(it, m, a):
+        return ascii_lower(it, deref(a[0])) if m.group(1) == 'to_ascii_lowercase' else ascii_upper(it, deref(a[0]))
+
+    @M(r'(?:std|core)::char::methods::<impl char>::eq_ignore_ascii_case')
+    def _(it, m, a):
+        return it.binop('Eq', ascii_lower(it, deref(a[0])), ascii_lower(it, deref(a[1])), 'char')
+
+    @M(r'<Chars as Iterator>::rev|<CharIndices as Iterator>::rev')
+    def _(it, m, a):
+        c = deref(a[0])
+        if isinstance(c, Chars):
+            lst = [ch for ch, _ in c.sr.obj.chars[c.sr.a + c.i:c.sr.b]][::-1]
+            return VecIntoIter(lst)
+        o = c.off; items = []
+        for ch, w in c.sr.obj.chars[c.sr.a + c.i:c.sr.b]:
+            items.append(Agg('tuple', None, [o, ch])); o += w
+        return VecIntoIter(items[::-1])
+
     # ---- logging: empty bodies (log level is statically disabled) -------------------------------
     @M(r'<Level as PartialOrd<LevelFilter>>::le|<log::Level as PartialOrd<log::LevelFilter>>::le')
     def _(it, m, a): return False
@@ -1297,6 +1613,16 @@ def install(prog):
 
     @M(r'<LevelFilter as PartialOrd>::le|<Level as PartialOrd<LevelFilter>>::le')
     def _(it, m, a): return False
+
+
+def ascii_lower(it, c):
+    if not is_sym(c): return c + 32 if 65 <= c <= 90 else c
+    return z3.If(z3.And(z3.UGE(c, 65), z3.ULE(c, 90)), c + 32, c)
+
+
+def ascii_upper(it, c):
+    if not is_sym(c): return c - 32 if 97 <= c <= 122 else c
+    return z3.If(z3.And(z3.UGE(c, 97), z3.ULE(c, 122)), c - 32, c)
 
 
 def mirsplit_last(s):
